@@ -329,7 +329,7 @@ def k5(ctx):
     return obs
 
 
-def _value_kind(ctx, fi, e) -> str:
+def _value_kind(ctx, fi, e, du=None, at=None) -> str:
     """'bytes' | 'str' | '?' for an id/etag-valued expression (dulwich ids are bytes; the stores' etags are str)."""
     if isinstance(e, ast.Attribute) and e.attr in ("id", "sha"):
         return "bytes"
@@ -340,6 +340,22 @@ def _value_kind(ctx, fi, e) -> str:
             return "str"
         if e.func.attr in ("_get_etag", "get_ctag") :
             return "str"
+    if isinstance(e, ast.Name) and e.id in fi.params:
+        # a parameter: the annotation of this method or of the method it overrides
+        for f in [fi] + ([c.methods[fi.name] for c in fi.cls.mro[1:] if fi.name in c.methods] if fi.cls else []):
+            for a in f.node.args.args + f.node.args.kwonlyargs:
+                if a.arg == e.id and a.annotation is not None:
+                    names = {n.id for n in ast.walk(a.annotation) if isinstance(n, ast.Name)}
+                    if "str" in names and "bytes" not in names:
+                        return "str"
+                    if "bytes" in names and "str" not in names:
+                        return "bytes"
+    if isinstance(e, ast.Subscript) and isinstance(e.slice, ast.Constant) and e.slice.value == 1 and isinstance(e.value, ast.Subscript) \
+            and isinstance(e.value.value, ast.Name) and du is not None and at is not None:
+        # dulwich Tree.__getitem__ -> (mode, sha): element 1 is a bytes id
+        defs = [d.value for d in du.reaching(at, e.value.value.id)]
+        if defs and all(isinstance(v, ast.Call) and (dotted(v.func) or "").endswith("_get_current_tree") for v in defs):
+            return "bytes"
     return "?"
 
 
@@ -356,10 +372,10 @@ def k6(ctx):
             sides = [t.ast.left, t.ast.comparators[0]]
             kinds = []
             for sd in sides:
-                k = _value_kind(ctx, fi, sd)
+                du = du or DefUse(cfg)
+                k = _value_kind(ctx, fi, sd, du, t)
                 if k == "?" and isinstance(sd, ast.Name):
-                    du = du or DefUse(cfg)
-                    ks = {_value_kind(ctx, fi, d.value) for d in du.reaching(t, sd.id) if d.value is not None and not (isinstance(d.value, ast.Constant) and d.value.value is None) and not d.index}
+                    ks = {_value_kind(ctx, fi, d.value, du, d.node) for d in du.reaching(t, sd.id) if d.value is not None and not (isinstance(d.value, ast.Constant) and d.value.value is None) and not d.index}
                     ks.discard("?")
                     if len(ks) == 1:
                         k = ks.pop()
